@@ -22,7 +22,7 @@ structure Record where
   deriving Repr, DecidableEq, Inhabited
 
 /-- the key forms accepted by `__getitem__` / `__setitem__` / `__delitem__` -/
-inductive Key where
+inductive RKey where
   | int (i : Int)
   | name (s : Text)
   | column (c : Column)
@@ -41,7 +41,7 @@ def tdictDel {β} (d : List (Text × β)) (k : Text) : List (Text × β) :=
   d.filter (fun p => !(p.1 == k))
 
 /-- `record[key]` -/
-def Record.getItem (r : Record) : Key → Except PyErr (Option RCol)
+def Record.getItem (r : Record) : RKey → Except PyErr (Option RCol)
   | .int i =>
     if i < 0 ∨ (r.slots.length : Int) ≤ i then .error .key
     else .ok (r.slots.getD i.toNat none)
@@ -69,7 +69,7 @@ def listSetPy (l : List (Option RCol)) (i : Int) (x : RCol) : Except PyErr (List
 
 /-- `record[key] = column`.  Returns the new record; on error the record state the
     Python object is left in (some failures happen after a partial update). -/
-def Record.setItem (r : Record) (key : Key) (x : RCol) : Record × Except PyErr Unit :=
+def Record.setItem (r : Record) (key : RKey) (x : RCol) : Record × Except PyErr Unit :=
   -- 1. reconcile the key with the column (may set the column's index)
   let step1 : Except PyErr RCol :=
     match key with
@@ -129,7 +129,7 @@ def trimNone : List (Option RCol) → List (Option RCol)
   | l => (l.reverse.dropWhile (·.isNone)).reverse
 
 /-- `del record[key]` -/
-def Record.delItem (r : Record) (key : Key) : Record × Except PyErr Unit :=
+def Record.delItem (r : Record) (key : RKey) : Record × Except PyErr Unit :=
   match r.getItem key with
   | .error e => (r, .error e)
   | .ok none => (r, .error .key)
@@ -154,7 +154,7 @@ def Record.delItem (r : Record) (key : Key) : Record × Except PyErr Unit :=
 def Record.keys (r : Record) : List (Option Text) := r.slots.map (·.map (·.col.key))
 
 /-- `record.value(key)` -/
-def Record.value (r : Record) (key : Key) : Except PyErr PyVal :=
+def Record.value (r : Record) (key : RKey) : Except PyErr PyVal :=
   match r.getItem key with
   | .ok (some c) => .ok c.col.value
   | .ok none => .error .attribute      -- `None.value`
